@@ -358,6 +358,7 @@ def monitor_case(ops, obs, which):
                 V("C13", "remove-on-drop-ignored", f"close after remove_on_drop(true) in a {fstate['mode'] or 'creating'} session: the file is still there", i)
             if not fstate.get("remove") and o.get("fh") == "none":
                 V("C13", "file-removed-unasked", "close removed the file although it was not marked remove-on-drop", i)
+                V("C05", "file-removed-unasked", "close removed the file although remove_on_drop(false) was the last setting: nothing is left to reopen", i)
             if fstate["mode"] in ("ro", "copy_ro", "copy") and fstate["fh_open"] is not None and o.get("fh") != fstate["fh_open"] and not fstate.get("remove"):
                 V("C09" if fstate["mode"] != "copy" else "C05", "session-changes-file",
                   f"file hash changed during a {fstate['mode']} session: {fstate['fh_open']} -> {o.get('fh')}", i)
@@ -512,6 +513,8 @@ def monitor_case(ops, obs, which):
                                 V("C18", "misplaced-after-truncate", f"alloc_aligned<{A},{S}>({N}) after a truncate was placed at the unaligned offset {off} (it does not fit where it must start)", i)
                         if cap < S + N:
                             V("C03", "capacity", f"alloc_aligned<{A},{S}>({N}) capacity {cap}", i)
+                            for p_ in ("C10", "C04"):
+                                V(p_, "served-unfit", f"alloc_aligned<{A},{S}>({N}) was served with {cap} bytes at {off}: no segment and no fresh space fits the request, it had to fail", i)
                         if o.get("am", "0") != "0":
                             V("C03", "addr-align", f"alloc_aligned<{A},{S}>({N}): address misaligned by {o.get('am')} (within the alignment the arena guarantees)", i)
                             if fstate.get("truncated"):
@@ -674,6 +677,8 @@ def monitor_case(ops, obs, which):
                     V("C17", "clear", f"after clear: allocated {al} (data_offset {doff}) discarded {di} fl {fl}", i)
                 if o.get("ms") != prev.get("ms"):
                     V("C17", "clear-changes-minseg", f"clear changed minimum_segment_size() {prev.get('ms')} -> {o.get('ms')}", i)
+                    for p_ in ("C20", "C10"):
+                        V(p_, "minseg-not-set", f"clear changed minimum_segment_size() {prev.get('ms')} -> {o.get('ms')}: releases are judged against a minimum the user did not set", i)
                 # ... and the bytes are those of a freshly created arena (same capacity, same minimum segment size, reserved
                 # slice never written, never reopened): the whole-memory hash equals the one right after construction
                 if not fstate.get("wres") and fstate["mode"] is None and cp == int(o0["cp"]) and o.get("ms") == o0.get("ms") \
